@@ -713,7 +713,32 @@ pub fn overlap_frames() -> ListFamily {
             items.push(P::Union(cat(b1.clone()), Rc::new(P::ConcatL(anch))));
         }
     }
-    ListFamily { name: "overlap frames/u0 (word + Sigma* block Sigma* block Sigma*, blocks of 1-2 ranges, words of 1-3 letters)".into(), u, items, shallow: 0 }
+    // the same with blocks that are not ranges: a non-nullable term N on both sides of sigma* next to N alone (a prefix /
+    // suffix test that lets the two occurrences overlap inside one N), also under an optional prefix
+    let a = r(1, 1);
+    let b = r(2, 2);
+    let ns: Vec<Rc<P>> = vec![
+        Rc::new(P::Plus(a.clone())),
+        Rc::new(P::Concat(Rc::new(P::Star(a.clone())), b.clone())),
+        Rc::new(P::Plus(Rc::new(P::Concat(Rc::new(P::Star(a.clone())), b.clone())))),
+        Rc::new(P::Loop(a.clone(), 1, 2)),
+        Rc::new(P::Concat(a.clone(), b.clone())),
+        Rc::new(P::Union(a.clone(), Rc::new(P::Concat(b.clone(), b.clone())))),
+        Rc::new(P::Concat(a.clone(), Rc::new(P::Opt(b.clone())))),
+        Rc::new(P::Inter(Rc::new(P::Plus(r(1, 2))), Rc::new(P::Comp(b.clone())))),
+    ];
+    for n in &ns {
+        let frame = Rc::new(P::ConcatL(vec![n.clone(), all.clone(), n.clone()]));
+        items.push(P::Union(n.clone(), frame.clone()));
+        items.push(P::Union(frame.clone(), n.clone()));
+        items.push(P::Concat(Rc::new(P::Opt(Rc::new(P::ConcatL(vec![a.clone(), n.clone(), all.clone()])))), n.clone()));
+        items.push(P::Concat(Rc::new(P::Opt(Rc::new(P::ConcatL(vec![n.clone(), all.clone()])))), n.clone()));
+        for m in &ns {
+            items.push(P::Union(m.clone(), Rc::new(P::ConcatL(vec![n.clone(), all.clone(), m.clone()]))));
+            items.push(P::Union(m.clone(), Rc::new(P::ConcatL(vec![m.clone(), all.clone(), n.clone()]))));
+        }
+    }
+    ListFamily { name: "overlap frames/u0 (word + Sigma* block Sigma* block Sigma*, blocks of 1-2 ranges, words of 1-3 letters; N + N Sigma* N for eight non-range terms N)".into(), u, items, shallow: 0 }
 }
 
 /// different spellings of one literal (character list, two halves, runs as powers, a repeated block as a power) in
